@@ -40,11 +40,14 @@ IsDict(v) == v.k = "D"
 (***************************************************************************)
 (* get_recursively: the first missing key is reported.                     *)
 (***************************************************************************)
+\* keys = the missing component and the ones below it: an implementation that keeps an empty
+\* nested dictionary (as lena.context.intersection may) reports a deeper component
+Range(s) == {s[j] : j \in 1..Len(s)}
 RECURSIVE Get(_, _)
 Get(c, path) ==
-  IF path = <<>> THEN [ok |-> TRUE, v |-> c, key |-> ""]
+  IF path = <<>> THEN [ok |-> TRUE, v |-> c, key |-> "", keys |-> {}]
   ELSE IF IsDict(c) /\ Head(path) \in DOMAIN c.m THEN Get(c.m[Head(path)], Tail(path))
-  ELSE [ok |-> FALSE, v |-> Empty, key |-> Head(path)]
+  ELSE [ok |-> FALSE, v |-> Empty, key |-> Head(path), keys |-> Range(path)]
 
 (***************************************************************************)
 (* update_recursively(d, o): items of o overwrite, sub-dictionaries merge. *)
@@ -82,16 +85,16 @@ InterAll(cs) == IF Len(cs) = 1 THEN cs[1] ELSE Inter2(cs[1], InterAll(Tail(cs)))
 (***************************************************************************)
 RECURSIVE Fmt(_, _)
 Fmt(toks, c) ==
-  IF toks = <<>> THEN [ok |-> TRUE, s |-> <<>>, key |-> ""]
+  IF toks = <<>> THEN [ok |-> TRUE, s |-> <<>>, key |-> "", keys |-> {}]
   ELSE LET h == Head(toks)
-           g == IF h.f THEN Get(c, h.p) ELSE [ok |-> TRUE, v |-> Leaf("str", <<h.l>>), key |-> ""]
-       IN IF ~g.ok THEN [ok |-> FALSE, s |-> <<>>, key |-> g.key]
+           g == IF h.f THEN Get(c, h.p) ELSE [ok |-> TRUE, v |-> Leaf("str", <<h.l>>), key |-> "", keys |-> {}]
+       IN IF ~g.ok THEN [ok |-> FALSE, s |-> <<>>, key |-> g.key, keys |-> g.keys]
           ELSE LET r == Fmt(Tail(toks), c) IN IF r.ok THEN [r EXCEPT !.s = g.v.s \o r.s] ELSE r
 
 \* value a SetContext stores for template tpl in context c
 Eval(tpl, c) ==
-  IF tpl.t = "fmt" THEN LET r == Fmt(tpl.toks, c) IN [ok |-> r.ok, v |-> Leaf("str", r.s), key |-> r.key]
-  ELSE [ok |-> TRUE, v |-> Leaf(tpl.t, <<tpl.toks[1].l>>), key |-> ""]
+  IF tpl.t = "fmt" THEN LET r == Fmt(tpl.toks, c) IN [ok |-> r.ok, v |-> Leaf("str", r.s), key |-> r.key, keys |-> r.keys]
+  ELSE [ok |-> TRUE, v |-> Leaf(tpl.t, <<tpl.toks[1].l>>), key |-> "", keys |-> {}]
 
 Lit(ch) == [f |-> FALSE, p |-> <<>>, l |-> ch]
 Fld(path) == [f |-> TRUE, p |-> path, l |-> ""]
@@ -136,7 +139,7 @@ ExpList(E, pol, mask, ch, cur, acc, mode) ==
              LET r == Eval(E[e].v, cur.ctx)
                  nxt == IF cur.err THEN cur
                         ELSE IF r.ok THEN [cur EXCEPT !.ctx = Put(cur.ctx, E[e].p, r.v)]
-                        ELSE IF mode = "lenient" THEN [cur EXCEPT !.un = @ \cup {r.key}]
+                        ELSE IF mode = "lenient" THEN [cur EXCEPT !.un = @ \cup r.keys]
                         ELSE ErrCur(r.key, e)
              IN ExpList(E, pol, mask, rest, nxt, acc1, mode)
         [] IsSeqLike(E[e]) ->
@@ -221,7 +224,7 @@ MFStep(tpl, s, rc) ==
 RT0 == Dict("rt" :> Leaf("int", <<"0">>))
 RT1 == Dict("rt" :> Leaf("int", <<"1">>))
 RTIn == <<RT0, RT1>>
-RECURSIVE RunList(_, _, _, _), RunBranches(_, _, _, _)
+RECURSIVE RunList(_, _, _, _), RunBranches(_, _, _, _), CatOuts(_, _, _, _)
 MapSeq(f(_), s) == [j \in 1..Len(s) |-> f(s[j])]
 RunList(E, seen, ch, vals) ==
   IF ch = <<>> THEN vals
@@ -231,15 +234,21 @@ RunList(E, seen, ch, vals) ==
       [] E[e].k = "seq" -> RunList(E, seen, Tail(ch), RunList(E, seen, E[e].ch, vals))
       [] E[e].k = "split" -> RunList(E, seen, Tail(ch), RunBranches(E, seen, E[e].ch, vals))
       [] OTHER -> RunList(E, seen, Tail(ch), vals)
+\* Split.run: Sources and Sequences yield while the block is processed, fill/compute branches
+\* when the flow is exhausted: their results come last (in branch order)
 RunBranches(E, seen, bs, vals) ==
-  IF bs = <<>> THEN <<>>
-  ELSE LET b == Head(bs) IN
+  LET IsAcc(b) == E[b].k = "acc"
+      NotAcc(b) == ~IsAcc(b)
+      Cat(l) == CatOuts(E, seen, l, vals)
+  IN Cat(SelectSeq(bs, NotAcc)) \o Cat(SelectSeq(bs, IsAcc))
+CatOuts(E, seen, l, vals) ==
+  IF l = <<>> THEN <<>>
+  ELSE LET b == Head(l) IN
     (CASE E[b].k = "acc" -> IF vals = <<>> THEN <<Empty>> ELSE <<vals[Len(vals)]>>
        [] E[b].k = "src" -> RunList(E, seen, E[b].ch, RTIn)
-       [] OTHER -> RunList(E, seen, E[b].ch, vals)) \o RunBranches(E, seen, Tail(bs), vals)
+       [] OTHER -> RunList(E, seen, E[b].ch, vals)) \o CatOuts(E, seen, Tail(l), vals)
 RunRoot(E, seen) == LET r == Len(E) IN
   IF E[r].k = "split" THEN RunBranches(E, seen, E[r].ch, RTIn)
   ELSE RunList(E, seen, E[r].ch, RTIn)
 
-Range(s) == {s[j] : j \in 1..Len(s)}
 =============================================================================
